@@ -168,7 +168,7 @@ def tasks(tier):
         if name in EXEMPT or (tier == 'quick' and name in HEAVY):
             continue
         ts.append(Task(name, mk_task(name, qual), extra=dict(indic.CFG_EXTRA, bounded=f'series length N={N}, warm-up window W={W}',
-                                                             task_timeout_s=(60 if tier == 'quick' else 600)),
+                                                             task_timeout_s=(300 if tier == 'quick' else 1200)),
                        overrides=dict(ov), max_paths=64, prove_timeout_ms=20000))
 
     def mustfail(h):
